@@ -196,6 +196,23 @@ class G:
             return self.vis("istring< '\\n', 'a' >", self.add("ISTRING", "\na"))
         if k == "bytes2":
             return self.vis("bytes< 2 >", self.add("BYTES", a0=2))
+        if k == "pred_not":
+            self.alpha.update("a\n")
+            return self.vis("predicate_not< one< 'a' > >", self.add("NOTONE", "a"))
+        if k == "pred_or":
+            self.alpha.update("ab\n")
+            return self.vis("predicates_or< one< 'a' >, one< '\\n' > >", self.add("ONE", "a\n"))
+        if k == "pred_and":
+            self.alpha.update("ab\n")
+            return self.vis("predicates_and< not_one< 'a' >, predicate_not< one< 'b' > > >", self.add("NOTONE", "ab"))
+        if k == "u8pred_not":
+            self.alpha.update("a\n\xe2\x82\xac")
+            return self.vis("utf8::predicate_not< utf8::one< 0x20AC > >", self.add("U8NOTONE", "\xe2\x82\xac"))
+        if k == "rep_string":
+            n = r.randint(0, 3)
+            pat = r.choice(["a", "ab", "a\n"])
+            self.alpha.update(pat)
+            return self.vis("rep_string< %d, %s >" % (n, ", ".join(cch(c) for c in pat)), self.add("STRING", pat * n))
         if k == "unsigned_rule":
             self.alpha.update("01a")
             return self.vis("unsigned_rule", self.add("UNSIGNED_RULE"))
@@ -328,6 +345,30 @@ class G:
         if k == "pad_opt":
             r, p = ids
             return g.vis("pad_opt< %s >" % tmplargs(), g.add("SEQ", kids=(g.add("STAR", kids=(p,)), g.add("OPT", kids=(g.add("SEQ", kids=(r, g.add("STAR", kids=(p,)))),)))))
+        if k == "separated_seq":
+            # separated_seq< S, R1, ..., Rn > == seq< R1, S, R2, S, ..., Rn >
+            sep = ids[0]
+            kids = []
+            for i, r_ in enumerate(ids[1:]):
+                if i:
+                    kids.append(sep)
+                kids.append(r_)
+            return g.vis("separated_seq< %s >" % tmplargs(), g.add("SEQ", kids=kids) if kids else g.add("SUCCESS"))
+        if k == "if_then_chain":
+            # if_then< C1, T1 >::else_if_then< C2, T2 >[::else_if_then< C3, T3 >]::else_then< E > == nested if_then_else
+            g.features |= GF_PRED_DUP
+            conds = ids[0:-1:2]
+            thens = ids[1:-1:2]
+            els = ids[-1]
+            core = els
+            for c_, t_ in reversed(list(zip(conds, thens))):
+                core = g.add("SOR", kids=(g.add("SEQ", kids=(c_, t_)), g.add("SEQ", kids=(g.add("NOTAT", kids=(c_,)), core))))
+            cpp = "tao::pegtl::if_then< %s, %s >" % (cpps[0], cpps[1])
+            for i in range(1, len(conds)):
+                cpp += "::else_if_then< %s, %s >" % (cpps[2 * i], cpps[2 * i + 1])
+            cpp += "::else_then< %s >" % cpps[-1]
+            # the resulting type is an internal::if_then_else: no invocation of its own; wrap it so that the model sees one rule
+            return g.vis("seq< %s >" % cpp, core)
         if k == "minus":
             g.features |= GF_LAZY_UNSAFE
             m, s = ids
@@ -419,7 +460,7 @@ class G:
 
     # ---- random expressions
     CORE_OPS = ["seq", "sor", "star", "plus", "opt", "at", "not_at"]
-    CONV_OPS = ["until", "until2", "rep", "rep_min", "rep_max", "rep_min_max", "rep_opt", "if_then_else", "list", "list3", "list_tail", "list_tail3",
+    CONV_OPS = ["separated_seq", "if_then_chain", "until", "until2", "rep", "rep_min", "rep_max", "rep_min_max", "rep_opt", "if_then_else", "list", "list3", "list_tail", "list_tail3",
                 "pad", "pad3", "pad_opt", "minus", "rematch", "partial", "star_partial", "strict", "star_strict", "opt2", "star2", "plus2", "at2", "not_at2"]
     EXC_OPS = ["must", "must2", "if_must", "opt_must", "star_must", "list_must", "if_must_else", "raise", "tcrf", "tcrf", "tc_std_rf", "tc_any_rf", "tc_type_rf", "tcrn", "tc_any_rn"]
     ACT_OPS = ["enable", "disable", "apply", "apply0", "if_apply"]
@@ -435,7 +476,7 @@ class G:
             if self.profile == "buf" and r.random() < 0.25:
                 return self.atom(r.choice(["rep_one_min_max", "unsigned_rule", "maximum_rule", "raw_string", "eol", "string", "istring", "bytes", "u8any", "u8one"]))
             if self.profile == "contrib" and r.random() < 0.7:
-                return self.atom(r.choice(["unsigned_rule", "signed_rule", "maximum_rule", "rep_one_min_max", "raw_string", "raw_string", "unsigned_rule"]))
+                return self.atom(r.choice(["unsigned_rule", "signed_rule", "maximum_rule", "rep_one_min_max", "raw_string", "raw_string", "unsigned_rule", "pred_not", "pred_or", "pred_and", "rep_string"]))
             if self.profile in ("buf", "conv") and r.random() < 0.04:
                 return self.atom("everything")
             return self.atom()
@@ -480,6 +521,10 @@ class G:
             return self.op(k, [e(), e(), e()])
         if k in ("list", "list_tail", "list_must", "pad", "minus", "pad_opt"):
             return self.op(k, [e(), e()])
+        if k == "separated_seq":
+            return self.op(k, [e() for _ in range(n2(2, 4))])
+        if k == "if_then_chain":
+            return self.op(k, [e() for _ in range(2 * n2(2, 3) + 1)])
         if k in ("list3", "list_tail3", "pad3"):
             return self.op(k[:-1], [e(), e(), e()])
         if k == "rematch":
@@ -550,7 +595,8 @@ class G:
         self.close()
 
     ATOMS_POS = ["any", "one_nl", "one_cr", "not_one_a", "range_ctl", "not_range_ab", "ranges_nl", "string_nl", "istring_nl", "bytes2", "eol", "eolf",
-                 "u8any", "u8one", "u8range", "u8notone", "uint8_any", "uint8_one_nl", "uint8_mask", "raw_string", "rep_one_min_max"]
+                 "u8any", "u8one", "u8range", "u8notone", "uint8_any", "uint8_one_nl", "uint8_mask", "raw_string", "rep_one_min_max",
+                 "pred_not", "pred_or", "pred_and", "u8pred_not", "rep_string"]
 
     def atoms_grammar(self, i):
         """position discipline of single rules: star< sor< A1, A2, any > > consumes everything through the atoms under test"""
@@ -631,6 +677,7 @@ CTX_TEMPLATES = [
     ("until", 1, (), "C09"), ("until", 2, (), "C09"), ("rep", 1, (2,), "C09"), ("rep_min", 1, (1,), "C09"), ("rep_max", 1, (2,), "C09"), ("rep_min_max", 1, (1, 2), "C09"),
     ("rep_opt", 1, (2,), "C09"), ("if_then_else", 3, (), "C09"), ("list", 2, (), "C09"), ("list", 3, (), "C09"), ("list_tail", 2, (), "C09"), ("list_tail", 3, (), "C09"),
     ("pad", 2, (), "C09"), ("pad", 3, (), "C09"), ("pad_opt", 2, (), "C09"), ("minus", 2, (), "C09"), ("rematch", 2, (), "C09"), ("rematch", 3, (), "C09"),
+    ("separated_seq", 3, (), "C09"), ("if_then_chain", 5, (), "C09"), ("if_then_chain", 7, (), "C09"),
     ("partial", 2, (), "C09"), ("star_partial", 2, (), "C09"), ("strict", 2, (), "C09"), ("star_strict", 2, (), "C09"),
     ("must", 1, (), "C09"), ("must", 2, (), "C09"), ("if_must", 2, (), "C09"), ("if_must", 3, (), "C09"), ("opt_must", 2, (), "C09"), ("star_must", 2, (), "C09"),
     ("list_must", 2, (), "C09"), ("list_must", 3, (), "C09"), ("if_must_else", 3, (), "C09"),
